@@ -83,7 +83,7 @@ AbstractCfg ==
   [fclass |-> IF agg.rtype = "argreduce" THEN "arg" ELSE IF agg.name \in {"nanfirst", "nanlast"} THEN "nanfl" ELSE "plain",
    engine |-> "none", method |-> cfg.method, reindex |-> cfg.reindex, arrDask |-> TRUE, byDask |-> cfg.byDask,
    expected |-> cfg.hasExpected, dtypeArg |-> FALSE, floatData |-> TRUE, allAxes |-> TRUE, byNdim |-> 1,
-   pref |-> Planner.method, hasCohorts |-> Planner.cohorts # {}, oneBlock |-> Len(Ends0) = 1]   \* judged before the rechunk
+   pref |-> Planner.method, hasCohorts |-> Planner.cohorts # {}, hasCohortsM |-> Planner.cohorts # {}, oneBlock |-> Len(Ends0) = 1]   \* judged before the rechunk
 
 PlanStep ==
   /\ phase = "factorized"
